@@ -711,7 +711,7 @@ func W1Depth(sink Sink) {
 func W1Width(sink Sink) {
 	c := &h.Case{Family: "W1Wd"}
 	c.DescFn = func(c *h.Case) string {
-		return fmt.Sprintf("%s of width %d then width %d (second absent if -1), element style %d", [...]string{"arrays", "objects"}[c.P[0]], c.P[1], c.P[2], c.P[3])
+		return fmt.Sprintf("%s of width %d then width %d (second absent if -1; -2-k: an empty sibling then one of width k), element style / wrapping %d", [...]string{"arrays", "objects"}[c.P[0]], c.P[1], c.P[2], c.P[3])
 	}
 	elems := []string{"1", `"s"`, "null", "[]", "{}", "-0.5", `"\u00e9"`, "true"}
 	build := func(buf []byte, obj bool, n, style int) []byte {
@@ -771,6 +771,77 @@ func W1Width(sink Sink) {
 					c.Input = b
 					c.Desc = ""
 					c.P = [4]int{o, n, m, style}
+					sink(c)
+				}
+			}
+		}
+		// a wide container, an EMPTY one and a small one as siblings (in an array and in an object)
+		for _, n := range grid {
+			for _, k := range []int{1, 3} {
+				for wrapObj := 0; wrapObj < 2; wrapObj++ {
+					var b []byte
+					seps := [3]string{"[", ",", ","}
+					if wrapObj == 1 {
+						seps = [3]string{`{"a":`, `,"b":`, `,"c":`}
+					}
+					b = append(buf[:0], seps[0]...)
+					b = build(b, o == 1, n, 1)
+					b = append(b, seps[1]...)
+					b = build(b, o == 1, 0, 1)
+					b = append(b, seps[2]...)
+					b = build(b, o == 1, k, 1)
+					if wrapObj == 1 {
+						b = append(b, '}')
+					} else {
+						b = append(b, ']')
+					}
+					c.Input = b
+					c.Desc = ""
+					c.P = [4]int{o, n, -2 - k, wrapObj}
+					sink(c)
+				}
+			}
+		}
+	}
+}
+
+// W1Pow: strings whose raw length is exactly a power of two, one less and one more (8 .. 131072),
+// plain, with one escape and multi-byte, alone, followed by a short string in the same container,
+// and as a key: size-class and chunk thresholds of scratch buffers (seeded change C15r5-m1).
+func W1Pow(sink Sink) {
+	c := &h.Case{Family: "W1Pw"}
+	c.DescFn = func(c *h.Case) string {
+		return fmt.Sprintf("string of raw length %d, style %d, wrapping %d", c.P[0], c.P[1], c.P[2])
+	}
+	wraps := [][2]string{{"", ""}, {"[", `,"bbbbbbbb"]`}, {`{"k":`, `,"z":"cccc"}`}, {"{", `:1,"dddd":"e"}`}}
+	for k := 3; k <= 17; k++ {
+		for dl := -1; dl <= 1; dl++ {
+			L := 1<<k + dl
+			for style := 0; style < 3; style++ {
+				for wi, w := range wraps {
+					if L > 40000 && wi == 3 {
+						continue
+					}
+					b := make([]byte, 0, L+40)
+					b = append(b, w[0]...)
+					b = append(b, '"')
+					n := L
+					switch style {
+					case 1:
+						b = append(b, `\n`...)
+						n -= 2
+					case 2:
+						b = append(b, "\xc3\xa9"...)
+						n -= 2
+					}
+					for i := 0; i < n; i++ {
+						b = append(b, byte('a'+i%26))
+					}
+					b = append(b, '"')
+					b = append(b, w[1]...)
+					c.Input = b
+					c.Desc = ""
+					c.P = [4]int{L, style, wi, 0}
 					sink(c)
 				}
 			}
